@@ -17,8 +17,11 @@ package receiver
 //@   pure
 //@   lockcheck
 //@   ghost ncorrupt := ghost_ncorrupt + 1
+// Next takes a pending update out of the table only to hand it to the caller
+// (an update dropped silently would keep its memory token for ever).
 //@ func (r *Receiver) Next
 //@   requires lock_free_on_entry: !held(r.mu)
+//@   ensures only_removes_what_it_returns: ghost_loc_mapDeletes == old(ghost_loc_mapDeletes) || instance != ""
 //@   lockcheck
 //@   modifies heap
 //@ func (r *Receiver) HasSnapshots
